@@ -373,6 +373,7 @@ impl Conductor {
         st.dpos = 0;
         st.pending = None;
         st.deadline = Instant::now() + deadline;
+        st.grace = Duration::from_millis(30);
         st.report = CondReport::default();
     }
 
@@ -478,6 +479,9 @@ impl Conductor {
                     st.tracker.as_mut().unwrap().apply(c2);
                     st.report.granted += 1;
                     st.report.fallback_grants += 1;
+                    // the implementation does not offer the concurrency the layout promises (or
+                    // rayon stacked jobs): from here on do not wait long for chosen events
+                    st.grace = Duration::from_micros(500);
                     // keep `pending`: it is still enabled and still wanted next
                     st.pending = Some((c, Instant::now()));
                     any = true;
